@@ -142,7 +142,7 @@ impl Property for C10 {
     fn rule(&self) -> String {
         "box-bodied robots (catalogue / realistic geometry; link boxes of random thickness, 8- or 14-vertex variants; 1 scene in 50 uses the bundled RX160 STL meshes for links and base) x joint vectors (two postures per scene) x optional tool and base x 0..3 environment boxes placed against a chosen link / the tool at a gap of \
          {-0.5, 0.3, 0.8, 1.25, 3, random} x the pair's safety distance (or free in space) x safety tables (touch-only, positive defaults in [0.005,0.3], per-pair overrides in either key order, NEVER_COLLIDES on random pairs incl. pairs naming J1, base and tool) \
-         x modes {first, all, none} x collides / collision_details / near(alternative table) / RobotBody::collides x rayon pools of 1, 2, 4, 16 threads with repeats. Oracle D decides every relevant pair; pairs within the 1e-4 m guard band, grazing contacts and \
+         x modes {first, all, none} x collides / collision_details / near(alternative table) / RobotBody::collides x rayon pools of 1, 2, 3, 4, 16 threads with repeats. Oracle D decides every relevant pair; pairs within the 1e-4 m guard band, grazing contacts and \
          containment without surface contact are undecided. Non-trivial: a scene/posture with >= 1 decided-colliding and >= 1 decided-free relevant pair."
             .into()
     }
@@ -208,7 +208,7 @@ impl Property for C10 {
             let what = format!("posture {}", qi + 1);
             // collision_details: once per pool size and repeated
             let mut first_report: Option<BTreeSet<(usize, usize)>> = None;
-            for (threads, repeats) in [(1usize, 1usize), (2, 2), (4, 2), (16, 3)] {
+            for (threads, repeats) in [(1usize, 1usize), (2, 2), (3, 1), (4, 2), (16, 3)] {
                 for _ in 0..repeats {
                     let det = in_pool(threads, || no_panic(|| robot.collision_details(q))).map_err(|m| viol!("no panic", "collision_details: {}", m))?;
                     check_report(&format!("{} collision_details [{} threads]", what, threads), mode, &det, &e, ctx)?;
